@@ -487,7 +487,7 @@ theorem filterQuery_canon (o : Opts) (h h' : Option Str) (q : Str)
 /-- what `normalize_url` does to the decoded, lower-cased hostname -/
 def hostSteps (puny : Str → Str) (o : Opts) (h : Str) : Str :=
   let h := if !h.isEmpty && o.stripIrrelevantSubdomains then subdomainSub o.normalizeAmp h else h
-  if o.normalizeAmp then stripAmpPrefix puny h else h
+  if o.normalizeAmp then stripAmpPrefix puny o.stripIrrelevantSubdomains h else h
 
 theorem normHost_eq (puny : Str → Str) (o : Opts) (h : Str) :
     normHost puny o h = if h.isEmpty then h else hostSteps puny o (canonHost puny h) := rfl
@@ -642,7 +642,7 @@ theorem normParts_reparse_canon (puny : Str → Str) (hp : PunyLaws puny) (hPH :
   have hpa : ∀ f q f' q', normPath o p'.path f' q' = normPath o p.path f q := by
     intro f q f' q'
     have e : p'.path = Normpath.pathOut o.quoted p.path
-        (!p.query.isEmpty || truthy (some p.fragment)) := by
+        (hasMore puny false { p with scheme := s0 }) := by
       rw [hpath]; rfl
     rw [e]
     exact normPath_canon hPH o hsts hlc p.path hAbs (fun e => (hcl e).1) _ f q f' q'
